@@ -9,7 +9,7 @@
    against Model/Pointer.v.  No validity hypothesis is needed for any of the equalities. *)
 
 From Coq Require Import Arith.
-From JP Require Import Proofs.GenEquivBase Generated.ScanPtrOps Proofs.PrefixProofs.
+From JP Require Import Proofs.GenEquivBase Generated.ScanToken Generated.ScanPtrOps Proofs.PrefixProofs.
 
 Arguments N.add : simpl never.
 Arguments N.sub : simpl never.
@@ -230,4 +230,87 @@ Proof.
   apply Nat.eqb_neq in L. destruct s as [|x s].
   - rewrite app_nil_r in E. subst p. congruence.
   - unfold get_byte. rewrite E, nth_N_app_len. eexists; reflexivity.
+Qed.
+
+(* ==== Pointer::tokens and the Tokens iterator ==============================================================================
+   Callers of `p.tokens()` are translated with the primitive [str_tokens] (the list of encoded tokens).  Here the source of
+   that primitive is tied down as well: `Pointer::tokens` (split at '/', drop the piece before the first '/') followed by
+   `Tokens::next` until exhaustion (each piece wrapped by Token::from_encoded_unchecked, borrowed) yields exactly
+   [map tokB (str_tokens p)].  What stays primitive is std's `str::split(char)` = [split_on] and `Iterator::next` on it
+   = head / tail. *)
+
+Theorem gen_tokens_eq (p : str) : gen_Pointer_tokens p = Ret (mk_Tokens (str_tokens p)).
+Proof.
+  unfold gen_Pointer_tokens, str_tokens, gen_Tokens_new. destruct (split_on 47 p); reflexivity.
+Qed.
+
+Theorem gen_Tokens_next_eq (t : Tokens) :
+  gen_Tokens_next t = Ret (mk_Tokens (tl (Tokens_inner t)), option_map tokB (hd_error (Tokens_inner t))).
+Proof. unfold gen_Tokens_next. destruct t as [[|x r]]; reflexivity. Qed.
+
+(* calling next until it returns None *)
+Fixpoint drain_tokens (fuel : nat) (t : Tokens) : outcome (list Token) :=
+  match fuel with
+  | O => OutOfFuel
+  | S fuel' =>
+      match gen_Tokens_next t with
+      | Ret (t', Some x) => match drain_tokens fuel' t' with Ret l => Ret (x :: l) | Panic => Panic | OutOfFuel => OutOfFuel end
+      | Ret (_, None) => Ret []
+      | Panic => Panic
+      | OutOfFuel => OutOfFuel
+      end
+  end.
+
+Lemma drain_tokens_eq : forall (l : list str) (fuel : nat), (length l < fuel)%nat ->
+  drain_tokens fuel (mk_Tokens l) = Ret (map tokB l).
+Proof.
+  induction l as [|x r IH]; intros fuel H; destruct fuel as [|fuel]; try (exfalso; inversion H; fail);
+    cbn [drain_tokens]; rewrite gen_Tokens_next_eq; cbn [Tokens_inner hd_error tl option_map map]; [reflexivity|].
+  rewrite IH by (cbn [length] in H; apply Nat.succ_lt_mono; exact H). reflexivity.
+Qed.
+
+Theorem gen_tokens_iterates (p : str) :
+  exists t, gen_Pointer_tokens p = Ret t /\
+            drain_tokens (S (length (str_tokens p))) t = Ret (map tokB (str_tokens p)) /\
+            (* after the last token the iterator keeps returning None (it is fused) *)
+            gen_Tokens_next (mk_Tokens []) = Ret (mk_Tokens [], None).
+Proof.
+  exists (mk_Tokens (str_tokens p)). split; [apply gen_tokens_eq|]. split; [|reflexivity].
+  apply drain_tokens_eq. apply Nat.lt_succ_diag_r.
+Qed.
+
+(* ---- src/component.rs  Components: Root, then the tokens ------------------------------------------------------------------ *)
+
+Fixpoint drain_components (fuel : nat) (c : Components) : outcome (list Component) :=
+  match fuel with
+  | O => OutOfFuel
+  | S fuel' =>
+      match gen_Components_next c with
+      | Ret (c', Some x) =>
+          match drain_components fuel' c' with Ret l => Ret (x :: l) | Panic => Panic | OutOfFuel => OutOfFuel end
+      | Ret (_, None) => Ret []
+      | Panic => Panic
+      | OutOfFuel => OutOfFuel
+      end
+  end.
+
+Lemma drain_components_sent : forall (l : list str) (fuel : nat), (length l < fuel)%nat ->
+  drain_components fuel (mk_Components (mk_Tokens l) true) = Ret (map (fun t => Component_Token (tokB t)) l).
+Proof.
+  induction l as [|x r IH]; intros fuel H; destruct fuel as [|fuel]; try (exfalso; inversion H; fail);
+    cbn [drain_components]; unfold gen_Components_next; cbn [Components_sent_root Components_tokens negb];
+    rewrite gen_Tokens_next_eq; cbn [Tokens_inner hd_error tl option_map map fst snd]; [reflexivity|].
+  rewrite IH by (cbn [length] in H; apply Nat.succ_lt_mono; exact H). reflexivity.
+Qed.
+
+Theorem gen_components_iterates (p : str) :
+  exists c, gen_Components_from p = Ret c /\
+    drain_components (S (S (length (str_tokens p)))) c =
+    Ret (Component_Root :: map (fun t => Component_Token (tokB t)) (str_tokens p)).
+Proof.
+  eexists; split; [reflexivity|].
+  change (drain_components (S (S (length (str_tokens p)))) (mk_Components (mk_Tokens (str_tokens p)) false))
+    with (match drain_components (S (length (str_tokens p))) (mk_Components (mk_Tokens (str_tokens p)) true) with
+          | Ret l => Ret (Component_Root :: l) | Panic => Panic | OutOfFuel => OutOfFuel end).
+  rewrite drain_components_sent by apply Nat.lt_succ_diag_r. reflexivity.
 Qed.
